@@ -153,6 +153,7 @@ func (it *Interp) run(op *Op, valid bool, f func(b *Backend)) {
 // Apply executes one operation.
 func (it *Interp) Apply(op *Op) {
 	it.Step++
+	it.ensureReg(op)
 	it.begin(op)
 	switch op.K {
 	case "new":
@@ -1825,6 +1826,9 @@ func (it *Interp) freshWorld(b *Backend, withFilters bool) {
 	for i := 0; i < it.M.Extra; i++ {
 		ecs.TypeID(nb.W, fillerType(nb.Cfg.Filler+i))
 	}
+	for _, c := range listOf(it.M.Reg) {
+		nb.register(c)
+	}
 	*b = *nb
 	for j := range it.M.Obs {
 		it.makeObs(b, j)
@@ -1932,10 +1936,11 @@ func (it *Interp) opDumpLoad(op *Op) {
 // opRegister registers one more component type. On a locked world (or beyond the documented maximum) this must panic
 // without consuming an ID or disturbing the registered types.
 func (it *Interp) opRegister(op *Op) {
-	total := it.B[0].Cfg.Filler + comps.N + it.M.Extra
+	total := it.B[0].numTypes(it.M)
 	valid := !it.locked() && total < MaskBits
 	it.run(op, valid, func(b *Backend) {
 		id := ecs.TypeID(b.W, fillerType(b.Cfg.Filler+it.M.Extra))
+		total := b.numTypes(it.M)
 		if int(id.Index()) != total {
 			fail("registry|register|id", "%s step %d: component type number %d got ID %d", b.Name, it.Step, total+1, id.Index())
 		}
@@ -1944,8 +1949,8 @@ func (it *Interp) opRegister(op *Op) {
 		it.M.Extra++
 	}
 	for _, b := range it.B {
-		if n := len(ecs.ComponentIDs(b.W)); n != b.Cfg.Filler+comps.N+it.M.Extra {
-			fail("registry|register|count", "%s step %d: %d component IDs registered, expected %d", b.Name, it.Step, n, b.Cfg.Filler+comps.N+it.M.Extra)
+		if n := len(ecs.ComponentIDs(b.W)); n != b.numTypes(it.M) {
+			fail("registry|register|count", "%s step %d: %d component IDs registered, expected %d", b.Name, it.Step, n, b.numTypes(it.M))
 		}
 		b.checkRegistry(it.Step)
 	}
@@ -1954,12 +1959,94 @@ func (it *Interp) opRegister(op *Op) {
 // checkRegistry verifies that the universe types keep their IDs and relation flags.
 func (b *Backend) checkRegistry(step int) {
 	for c := 0; c < comps.N; c++ {
+		if !b.Reg[c] {
+			continue
+		}
 		info, ok := ecs.ComponentInfo(b.W, b.IDs[c])
 		if !ok || info.Type != comps.All[c].Type || info.IsRelation != comps.All[c].Relation {
 			fail("registry|info|changed", "%s step %d: ComponentInfo(%s) = %+v, %v", b.Name, step, comps.All[c].Name, info, ok)
 		}
 		if id := comps.Register(b.W, c); id != b.IDs[c] {
 			fail("registry|id|changed", "%s step %d: type %s now maps to ID %d (was %d)", b.Name, step, comps.All[c].Name, id.Index(), b.IDs[c].Index())
+		}
+	}
+}
+
+// numTypes is the number of component types registered in this backend's world.
+func (b *Backend) numTypes(m *Model) int {
+	n := b.Cfg.Filler + m.Extra
+	for c := 0; c < comps.N; c++ {
+		if b.Reg[c] {
+			n++
+		}
+	}
+	return n
+}
+
+// opComps returns the universe components an operation touches (generously).
+func opComps(op *Op) uint16 {
+	m := maskOf(op.Comps) | maskOf(op.Rem)
+	for _, r := range op.Rels {
+		m |= 1 << uint(r.C)
+	}
+	for _, r := range op.QRels {
+		m |= 1 << uint(r.C)
+	}
+	switch op.K {
+	case "new", "newBatch", "add", "remove", "exchange", "set", "write", "setRel", "addBatch", "removeBatch", "exchangeBatch", "setRelBatch", "read", "probe":
+		if op.P == PEx {
+			if op.M < len(ExInsts) {
+				m |= ExInsts[op.M].Mask
+			}
+		} else if op.P == PMap || op.K == "read" || op.K == "probe" || op.K == "write" || op.K == "set" || op.K == "setRelBatch" {
+			if op.M < len(MapInsts) {
+				m |= MapInsts[op.M].Mask
+			}
+		}
+	}
+	if op.FS != nil {
+		m |= op.FS.Mask() | maskOf(op.FS.Without)
+		for _, r := range op.FS.Rels {
+			m |= 1 << uint(r.C)
+		}
+	}
+	if op.OS != nil {
+		m |= op.OS.C() | maskOf(op.OS.With) | maskOf(op.OS.Without)
+	}
+	for i := range op.Acts {
+		m |= opComps(&op.Acts[i])
+		if k := op.Acts[i].K; k == "mapAdd" || k == "mapRemove" || k == "mapNew" || k == "mapNewBatch" || k == "removeBatch" {
+			m |= MapInsts[op.Acts[i].M].Mask
+		}
+	}
+	return m
+}
+
+// ensureReg registers, on every backend and in component order, the universe types an operation touches that are
+// not registered yet (late registration: archetypes and tables usually exist already). Registration is impossible
+// on a locked world; the generator does not draw such operations then.
+func (it *Interp) ensureReg(op *Op) {
+	need := opComps(op) &^ it.M.Reg
+	if it.Step == 1 {
+		// types registered at world creation
+		for c := 0; c < comps.N; c++ {
+			if it.B[0].Reg[c] {
+				it.M.Reg |= 1 << uint(c)
+			}
+		}
+		need = opComps(op) &^ it.M.Reg
+	}
+	if need == 0 || it.locked() {
+		return
+	}
+	for _, c := range listOf(need) {
+		for _, b := range it.B {
+			b.register(c)
+		}
+		it.M.Reg |= 1 << uint(c)
+		it.M.LateReg++
+		if len(it.M.Ents) > 0 {
+			it.count("late-registration-with-entities")
 		}
 	}
 }
